@@ -13,6 +13,7 @@ import (
 	"sync"
 	"sync/atomic"
 	"time"
+	"unicode"
 
 	"pgregory.net/rapid"
 )
@@ -114,6 +115,19 @@ func (r *rng) disciplineProgram() (*SX, bool) {
 		parts = append(parts, body+fmt.Sprintf(" (emit %d))", 200+i))
 	}
 	return mustSX("((repeat " + strings.Join(parts, " ") + "))"), hasCheck
+}
+
+type c14Account struct {
+	mu       sync.Mutex
+	inString chan struct{}
+	once     sync.Once
+}
+
+func (a *c14Account) String() string {
+	a.once.Do(func() { close(a.inString) })
+	a.mu.Lock()
+	defer a.mu.Unlock()
+	return "42"
 }
 
 type c08Machine interface {
@@ -1258,6 +1272,58 @@ func init() {
 				m.violate(violation{"C18", "float-hole", fmt.Sprintf("%s: in %d draws no value between %v and %v with a fraction below .5", name, n, k+1, top), map[string]string{"gen": name}})
 			}
 		}
+		// every rune of a table given to RuneFrom is produced: small tables with 16-bit and 32-bit ranges at the ends of
+		// their domains, strides, and the standard table of non-characters
+		for _, tc := range []struct {
+			name string
+			tab  *unicode.RangeTable
+		}{
+			{"R16 fff0..ffff", &unicode.RangeTable{R16: []unicode.Range16{{Lo: 0xfff0, Hi: 0xffff, Stride: 1}}}},
+			{"R16 0..40 stride 8 + fffe..ffff", &unicode.RangeTable{R16: []unicode.Range16{{Lo: 0, Hi: 0x40, Stride: 8}, {Lo: 0xfffe, Hi: 0xffff, Stride: 1}}, LatinOffset: 1}},
+			{"R16 ff00..ffff stride 0x33", &unicode.RangeTable{R16: []unicode.Range16{{Lo: 0xff00, Hi: 0xffff, Stride: 0x33}}}},
+			{"R32 10fff0..10ffff", &unicode.RangeTable{R32: []unicode.Range32{{Lo: 0x10fff0, Hi: 0x10ffff, Stride: 1}}}},
+			{"R16 41..5a + R32 1f600..1f60f", &unicode.RangeTable{R16: []unicode.Range16{{Lo: 0x41, Hi: 0x5a, Stride: 5}}, R32: []unicode.Range32{{Lo: 0x1f600, Hi: 0x1f60f, Stride: 3}}, LatinOffset: 1}},
+			{"Noncharacter_Code_Point", unicode.Noncharacter_Code_Point},
+		} {
+			var want []rune
+			for c := rune(0); c <= unicode.MaxRune; c++ {
+				if unicode.Is(tc.tab, c) {
+					want = append(want, c)
+				}
+			}
+			seen := map[rune]bool{}
+			what := ""
+			func() {
+				defer func() {
+					if p := recover(); p != nil {
+						what = fmt.Sprintf("RuneFrom(nil, %s): panic %v", tc.name, p)
+					}
+				}()
+				g := rapid.RuneFrom(nil, tc.tab)
+				t := rapid.VerifNewT(newRecTB("rt"), rapid.VerifRandStream(r.u64(), false), false)
+				for k := 0; k < 200*len(want) && len(seen) < len(want); k++ {
+					c := rapid.VerifValue(g, t)
+					if !unicode.Is(tc.tab, c) {
+						what = fmt.Sprintf("RuneFrom(nil, %s) produced %U, which is not in the table", tc.name, c)
+						return
+					}
+					seen[c] = true
+				}
+			}()
+			m.tag("rune-table-reach")
+			m.eval("rune-table "+tc.name, true)
+			if what == "" && len(seen) < len(want) {
+				for _, c := range want {
+					if !seen[c] {
+						what = fmt.Sprintf("RuneFrom(nil, %s): %U is in the table but was not produced in %d draws (%d of %d runes seen)", tc.name, c, 200*len(want), len(seen), len(want))
+						break
+					}
+				}
+			}
+			if what != "" {
+				m.violate(violation{"C18", "rune-table", what, map[string]string{"table": tc.name}})
+			}
+		}
 		// the public full-range generator of every integer kind hits both ends of its Go type
 		kindEdges(r, m)
 		// fresh seeds: two Check calls without -rapid.seed explore different test cases
@@ -1390,6 +1456,45 @@ func (g *gateTB) Context() context.Context {
 func raceScenario(which string) {
 	switch which {
 	case "C14":
+		// T never runs the caller's code (the String method of a logged argument) while it holds its own lock: one
+		// goroutine formats a value whose String method needs a mutex, another one holds that mutex and asks T
+		// something in the meantime
+		for _, verbose := range []bool{false, true} {
+			fl := baseFlags()
+			fl.Checks = 3
+			fl.Seed = 5
+			fl.Verbose = verbose
+			done := make(chan struct{})
+			go func() {
+				defer close(done)
+				withFlags(fl, func() {
+					runTB(func() {
+						rapid.VerifCheckTB(newRecTB("lockorder"), farDeadline(), func(t *rapid.T) {
+							acct := &c14Account{inString: make(chan struct{})}
+							acct.mu.Lock()
+							finished := make(chan struct{})
+							go func() {
+								defer close(finished)
+								defer func() { recover() }() // (Errorf does not stop the goroutine; a stop would be fine too)
+								t.Errorf("balance: %v", acct)
+							}()
+							<-acct.inString // the other goroutine is inside Errorf, formatting
+							_ = t.Failed()
+							_ = t.Name()
+							t.Cleanup(func() {})
+							acct.mu.Unlock()
+							<-finished
+						})
+					})
+				})
+			}()
+			select {
+			case <-done:
+			case <-time.After(60 * time.Second):
+				fmt.Println("LOST: deadlock: t.Errorf formatting a value whose String method needs a mutex, while the goroutine holding that mutex calls t.Failed / t.Name / t.Cleanup: none of them returned in 60s")
+				os.Exit(67)
+			}
+		}
 		// all goroutines observe one and the same context, also when their first calls overlap
 		{
 			gtb := &gateTB{recTB: newRecTB("gate"), both: make(chan struct{})}
